@@ -114,6 +114,11 @@ def digest(machine):
     for name, mode in machine.modes.items():
         out.append(('mode', name, len(mode.delay.delays), len(mode.mode_devices), len(mode.stop_methods)))
     out.append(('mdelay', len(machine.delay.delays), tuple(sorted(k for k in machine.delay.delays if not k.count('-') == 4))))
+    # delays which config players keep on behalf of the modes' entries (event_player 'evt|2s', flasher_player ...)
+    for attr in sorted(a for a in vars(machine) if a.endswith('_player')):
+        dm = getattr(getattr(machine, attr), 'delay', None)
+        if dm is not None and hasattr(dm, 'delays'):
+            out.append(('pdelay', attr, len(dm.delays)))
     out.append(('rules', len(getattr(machine.default_platform, 'rules', {}) or {})))
     for coll in ('counters', 'timers'):
         for dev in getattr(machine, coll).values():
